@@ -79,6 +79,13 @@ func main() {
 	for _, f := range fieldsRunC10Codec {
 		names = append(names, "codec/"+f.name)
 	}
-	r.Parallel(names, func(g string) { r.RunShard(g, 0, nil) })
+	names = append(names, "race")
+	r.Parallel(names, func(g string) {
+		if g == "race" {
+			r.RunRacePass("C10")
+			return
+		}
+		r.RunShard(g, 0, nil)
+	})
 	r.Finish()
 }
